@@ -297,17 +297,44 @@ def violations(spec, x, tol=1e-6):
         lhs, ok = cvx_lhs(c, x)
         curv = AT.ATOMS[c['atom']]['curv']
         s = 10 * tol * (1 + np.max(np.abs(lhs)) + c['mult'] * sc)
+        amount = None
         if not ok:
-            out.append(('cvx%d_domain' % k, 1.0))
+            amount = 1.0
         elif curv == 1 and np.max(lhs) > s:
-            out.append(('cvx%d:%s' % (k, c['atom']), float(np.max(lhs))))
+            amount = float(np.max(lhs))
         elif curv == -1 and np.min(lhs) < -s:
-            out.append(('cvx%d:%s' % (k, c['atom']), float(-np.min(lhs))))
+            amount = float(-np.min(lhs))
+        if amount is not None and tol > 0 and _near_feasible(c, x, curv, s, 10 * tol):
+            # atoms such as log are hypersensitive near the boundary of their domain: a point
+            # whose atom argument is within solver tolerance of a feasible one is accepted
+            amount = None
+        if amount is not None:
+            out.append(('cvx%d%s' % (k, '_domain' if not ok else ':' + c['atom']), amount))
     for k, s_ in enumerate(spec['special']):
         v = special_viol(s_, x)
         if v > 20 * tol * sc:
             out.append(('special%d:%s' % (k, s_['kind']), float(v)))
     return out
+
+
+def _near_feasible(c, x, curv, s, delta):
+    """True if some perturbation of the atom's argument by at most delta*(1+|u|) per
+    component satisfies the constraint."""
+    x = np.asarray(x, float)
+    u = np.array(c['M'], float) @ x + np.array(c['v'], float)
+    g = np.array(c['g'], float)
+    rest = g @ x + np.array(c['k'], float)
+    m = u.size
+    if m > 4:
+        return False
+    for sg in itertools.product([-1.0, 0.0, 1.0], repeat=m):
+        up = u + np.array(sg) * delta * (1 + np.abs(u))
+        if not AT.in_domain(c['atom'], up, c['params']):
+            continue
+        lhs = c['mult'] * np.asarray(AT.value(c['atom'], up, c['params']), float) + rest
+        if (curv == 1 and np.max(lhs) <= s) or (curv == -1 and np.min(lhs) >= -s):
+            return True
+    return False
 
 
 def special_viol(s, x):
